@@ -7,10 +7,12 @@
 //!    with the aes/cmac crates directly, not through sciparse), walked AS by AS with
 //!    sciparse's HopMacValidator, reversed, walked back; for a tampered journey EVERY single-bit
 //!    flip of the tampered field is tried.
+#![allow(dead_code)]
 use aes::Aes128;
 use cmac::{Cmac, Mac};
 use sciparse::{
-    core::view::View,
+    core::{convert::ToModel, encode::WireEncode, view::View},
+    dataplane_path::{model::DpPath, onehop::{model::OneHopPath, view::OneHopPathView}},
     dataplane_path::standard::{
         routing::{EgressValidateResult, HopMacValidator, IngressAdvanceAction, IngressValidateResult},
         view::StandardPathView,
@@ -490,4 +492,63 @@ pub fn replay_double(case: &Value) -> Value {
         }
     }
     json!({"conf": mis.is_empty(), "mis": mis, "pv": pvs, "flips": pairs, "not_at_earlier_owner": early, "cls": cd_class(&pieces)})
+}
+
+/// One-hop journey (PathWalk!OneHopVerifies): AS 1 originates a one-hop path, the SegID is
+/// advanced at its egress, AS 2 fills the second hop field, the reply travels over the reversed
+/// standard path and must verify at AS 2 and AS 1 with their keys.
+pub fn replay_onehop_journey(case: &Value) -> Value {
+    let salt = 3;
+    let (k1, k2) = (as_key(1, salt), as_key(2, salt));
+    let segid = case["segid"].as_u64().unwrap_or(0x1234) as u16;
+    let ts: u32 = 1_700_000_000;
+    let exp = case["exp"].as_u64().unwrap_or(63) as u8;
+    let (eg, ing) = (11u16, 22u16);
+    let mut pvs = Vec::new();
+    let mut mis = Vec::new();
+    let r = catch(|| {
+        let m = OneHopPath::new(eg, segid, ts, k1, exp);
+        let mut bytes = m.try_encode_to_vec().unwrap_or_default();
+        // the originator's hop field must carry the MAC the specification prescribes
+        let want1 = hop_mac(&k1, segid, ts, exp, 0, eg);
+        let mac1_ok = bytes.len() == 32 && bytes[14..20] == want1;
+        // AS 1 egress: SegID advanced (construction direction)
+        if bytes.len() == 32 {
+            let b2 = segid ^ u16::from_be_bytes([bytes[14], bytes[15]]);
+            bytes[2..4].copy_from_slice(&b2.to_be_bytes());
+        }
+        let (v, _) = OneHopPathView::try_from_mut_slice(&mut bytes).unwrap();
+        v.set_second_hop(ing, k2, true);
+        let mut dp = DpPath::OneHop(v.to_model());
+        let rev_ok = dp.try_reverse().is_ok();
+        let std_bytes = match &dp {
+            DpPath::Standard(sp) => sp.try_encode_to_vec().ok(),
+            _ => None,
+        };
+        (mac1_ok, rev_ok, std_bytes)
+    });
+    match r {
+        Err(msg) => pvs.push(pv("Panic:onehop-journey", msg)),
+        Ok((mac1_ok, rev_ok, std_bytes)) => {
+            if !mac1_ok {
+                pvs.push(pv("AuthenticRejected:onehop:first-hop-mac", "OneHopPath::new does not MAC the first hop field over (SegID, timestamp, exp, 0, egress) with the given key"));
+            }
+            match (rev_ok, std_bytes) {
+                (true, Some(mut b)) => {
+                    let w = walk(&mut b, &[2, 1], salt);
+                    pvs.extend(w.pv.iter().cloned());
+                    if w.outcome != "delivered" {
+                        pvs.push(pv("AuthenticRejected:onehop:reply", format!("the reversed one-hop path was rejected at AS {} ({})", w.failed_at, w.outcome)));
+                    }
+                    let real: Vec<String> = w.steps.iter().map(|x| format!("{}:{}:{}", x.a, x.op, x.k)).collect();
+                    let spec = vec!["2:ing_int:ok".to_string(), "2:egr:ok".to_string(), "1:ing_ext:ok".to_string()];
+                    if real != spec {
+                        mis.push(json!({"field": "walk", "spec": spec, "real": real}));
+                    }
+                }
+                _ => pvs.push(pv("AuthenticRejected:onehop:reverse", "DpPath::try_reverse failed on a completed one-hop path")),
+            }
+        }
+    }
+    json!({"conf": mis.is_empty(), "mis": mis, "pv": pvs, "flips": 0, "cls": "onehop"})
 }
